@@ -15,7 +15,7 @@ PLAN = {
     "C17": ["K17", "K17b"],
     "C18": ["K18a", "K18b", "L18"],
     "C19": ["K19b", "L19"],
-    "C11": ["K11a", "K11b"],
+    "C11": ["K11a", "K11b", "L11"],
     "C12": ["K12a", "K12b", "K12d", "K12e"],
     "C13": ["K12a", "K13a", "K13b", "K14b"],
     "C14": ["K14a", "K14b"],
